@@ -240,3 +240,40 @@ Proof.
   unfold doc_safe, doc_ok, doc_text. intros H. rewrite !andb_true_iff, !negb_true_iff in H. destruct H as [[H1 H2] H3].
   rewrite (scan_doc_safe body [] 0%nat rest) by (auto; lia). cbn [rev app]. rewrite !str_eqb_refl. reflexivity.
 Qed.
+
+(* ---------------------------------------------------------------- file names *)
+Section FileNames.
+  Variable is_word : N -> bool.
+  Variable lower : N -> str.
+
+  (* a template that starts with the revision id: the loader's two forbidden prefixes cannot occur when the id does not
+     start with a dot or an underscore *)
+  Theorem filename_prefix_ok rest c r msg trunc : c <> 46 -> c <> 95 ->
+    has_prefix (lit ".#") (rev_filename is_word lower (TRevId :: rest) (c :: r) msg trunc) = false /\
+    has_prefix (lit "__init__") (rev_filename is_word lower (TRevId :: rest) (c :: r) msg trunc) = false.
+  Proof.
+    intros H1 H2. unfold rev_filename. cbn [flat_map piece_text app].
+    apply N.eqb_neq in H1, H2. rewrite N.eqb_sym in H1, H2. split.
+    - change (lit ".#") with [46; 35]. cbn [has_prefix]. rewrite H1. reflexivity.
+    - change (lit "__init__") with (95 :: lit "_init__"). cbn [has_prefix]. rewrite H2. reflexivity.
+  Qed.
+
+  Lemma split_unique (sep:N) : forall a b x y, ~ In sep a -> ~ In sep b -> a ++ sep :: x = b ++ sep :: y -> a = b.
+  Proof.
+    induction a as [|c a IH]; destruct b as [|d b]; cbn [app]; intros x y Ha Hb E.
+    - reflexivity.
+    - injection E as E _. exfalso. apply Hb. left. symmetry. exact E.
+    - injection E as E _. exfalso. apply Ha. left. exact E.
+    - injection E as E1 E2. subst d. f_equal. apply (IH b x y); auto; intros Hin; [apply Ha|apply Hb]; right; exact Hin.
+  Qed.
+
+  (* the default shape of file_template, the revision id followed by a separator that no revision id contains:
+     two calls that write the same file name have the same revision id *)
+  Theorem filename_injective sep l rest r1 r2 m1 m2 t1 t2 : ~ In sep r1 -> ~ In sep r2 ->
+    rev_filename is_word lower (TRevId :: TLit (sep :: l) :: rest) r1 m1 t1
+    = rev_filename is_word lower (TRevId :: TLit (sep :: l) :: rest) r2 m2 t2 -> r1 = r2.
+  Proof.
+    intros H1 H2. unfold rev_filename. cbn [flat_map piece_text]. rewrite <- !app_assoc. cbn [app].
+    intros E. eapply split_unique; eauto.
+  Qed.
+End FileNames.
